@@ -1,3 +1,207 @@
 """Engines other than the rapidcheck runner (libFuzzer campaigns, fault enumeration,
 Hypothesis-driven CLI checks).  Importing this module registers them."""
-import driver  # noqa: F401
+import glob
+import hashlib
+import json
+import os
+import re
+import shutil
+import subprocess
+import sys
+import tempfile
+import time
+
+import driver
+import ybuild
+from driver import (CORPUS, FAIL, VERIF, keep_failure, log, merge_stats, open_known, prlimit_cmd, san_env,
+                    write_evidence, write_known_list)
+from props import PROPS
+
+
+# --------------------------------------------------------------------------- libFuzzer
+def _seed_files(globs):
+    out = []
+    for g in globs:
+        g = g.replace("{repo}", ybuild.REPO).replace("{verif}", VERIF)
+        for f in sorted(glob.glob(g)):
+            if os.path.isfile(f) and os.path.getsize(f) <= 2 * 1024 * 1024:
+                out.append(f)
+    return out
+
+
+def _fuzz_env(P, target, work, known_path, leaks=True):
+    env = san_env(leaks)
+    # libFuzzer must see sanitizer failures as crashes of the unit, not exit codes
+    env["ASAN_OPTIONS"] = ("allocator_may_return_null=1:detect_stack_use_after_return=0:detect_leaks=%d:"
+                           "handle_abort=1:print_summary=1:symbolize=1" % (1 if leaks else 0))
+    env["UBSAN_OPTIONS"] = "print_stacktrace=1:halt_on_error=1"
+    env.pop("LSAN_OPTIONS", None)
+    env["VERIF_STATS_OUT"] = os.path.join(work, "stats-%s" % target["name"])
+    env["VERIF_FAILDIR"] = os.path.join(work, "fail-%s" % target["name"])
+    env["VERIF_KNOWN"] = known_path
+    env["VERIF_REPO"] = ybuild.REPO
+    os.makedirs(env["VERIF_FAILDIR"], exist_ok=True)
+    for k, v in target.get("env", {}).items():
+        env[k] = v.replace("{work}", work)
+    return env
+
+
+def _run_single(exe, path, env, timeout=180):
+    try:
+        p = subprocess.run(prlimit_cmd([exe, "-timeout=60", "-rss_limit_mb=4096", path]), env=env,
+                           stdout=subprocess.PIPE, stderr=subprocess.STDOUT, timeout=timeout)
+    except subprocess.TimeoutExpired:
+        return "timeout", "single-input run timed out"
+    out = p.stdout.decode(errors="replace")
+    return ("pass" if p.returncode == 0 else "fail"), out
+
+
+def run_fuzz(pid, tier, seed, replay=None):
+    P = PROPS[pid]
+    t0 = time.time()
+    exe = ybuild.link_prop(P["src"], config="asan", variant="fz")
+    work = tempfile.mkdtemp(prefix="verif-%s-" % pid, dir=os.path.join(VERIF, "build"))
+    known_path = os.path.join(work, "known.txt")
+    write_known_list(pid, known_path)
+    targets = P["fuzz_targets"]
+    try:
+        if replay:
+            base = os.path.basename(replay)
+            tnames = [t for t in targets if base.startswith(t["name"] + "-")] or targets
+            bad = False
+            for t in tnames:
+                env = _fuzz_env(P, t, work, known_path, P.get("leaks", True))
+                st, out = _run_single(exe, replay, env)
+                sys.stdout.write(out[-4000:])
+                if st == "fail":
+                    bad = True
+                    break
+            if bad:
+                print("VIOLATION property=%s replay=%s" % (pid, replay))
+                return 1
+            print("REPLAY-PASS")
+            return 0
+
+        violations = []
+        replayed = 0
+        # 1. saved regression inputs
+        for t in targets:
+            env = _fuzz_env(P, t, work, known_path, P.get("leaks", True))
+            for f in sorted(glob.glob(os.path.join(CORPUS, pid, t["name"] + "-*"))):
+                st, out = _run_single(exe, f, env)
+                replayed += 1
+                if st == "fail" and all(_run_single(exe, f, env)[0] == "fail" for _ in range(2)):
+                    violations.append((f, _summary(out)))
+
+        # 2. campaigns, all targets concurrently
+        budget = P[tier][1]
+        forks = max(1, 16 // len(targets))
+        procs = []
+        for ti, t in enumerate(targets):
+            env = _fuzz_env(P, t, work, known_path, P.get("leaks", True))
+            cdir = os.path.join(work, "corpus-" + t["name"])
+            sdir = os.path.join(work, "seeds-" + t["name"])
+            adir = os.path.join(work, "art-" + t["name"])
+            for d in (cdir, sdir, adir):
+                os.makedirs(d)
+            for i, f in enumerate(_seed_files(t.get("seeds", []))):
+                shutil.copyfile(f, os.path.join(sdir, "%04d-%s" % (i, os.path.basename(f)[:40])))
+            env["VERIF_SEED_DIR"] = sdir
+            cmd = [exe, "-fork=%d" % forks, "-max_total_time=%d" % budget, "-seed=%d" % (seed * 101 + ti + 1),
+                   "-timeout=%d" % t.get("timeout", 25), "-rss_limit_mb=3500", "-max_len=%d" % t.get("max_len", 65536),
+                   "-artifact_prefix=" + adir + "/", "-print_final_stats=1", "-ignore_timeouts=1", "-ignore_ooms=1",
+                   "-ignore_crashes=0"]
+            if t.get("dict"):
+                d = t["dict"].replace("{repo}", ybuild.REPO).replace("{verif}", VERIF)
+                if os.path.exists(d):
+                    cmd.append("-dict=" + d)
+            cmd += [cdir, sdir]
+            lf = open(os.path.join(work, "fuzz-%s.log" % t["name"]), "wb")
+            procs.append((t, subprocess.Popen(prlimit_cmd(cmd), env=env, stdout=lf, stderr=subprocess.STDOUT,
+                                              cwd=work), lf, adir))
+        for t, p, lf, adir in procs:
+            try:
+                p.wait(timeout=budget + 300)
+            except subprocess.TimeoutExpired:
+                p.kill()
+                p.wait()
+                log("campaign %s killed after hard limit" % t["name"])
+            lf.close()
+
+        # 3. artifacts
+        lf_stats = {}
+        for t, p, lf, adir in procs:
+            env = _fuzz_env(P, t, work, known_path, P.get("leaks", True))
+            logtxt = open(os.path.join(work, "fuzz-%s.log" % t["name"]), "rb").read().decode(errors="replace")
+            m = re.findall(r"#(\d+): cov: (\d+) ft: (\d+) corp: (\d+)", logtxt)
+            if m:
+                lf_stats[t["name"]] = {"execs": int(m[-1][0]), "cov": int(m[-1][1]), "ft": int(m[-1][2]),
+                                       "corpus": int(m[-1][3])}
+            arts = sorted(glob.glob(os.path.join(adir, "crash-*")) + glob.glob(os.path.join(adir, "leak-*")),
+                          key=os.path.getsize)
+            noise = len(glob.glob(os.path.join(adir, "timeout-*")) + glob.glob(os.path.join(adir, "oom-*")) +
+                        glob.glob(os.path.join(adir, "slow-unit-*")))
+            if noise:
+                lf_stats.setdefault(t["name"], {})["inconclusive_timeout_oom_slow"] = noise
+            for a in arts[:4]:
+                res = [_run_single(exe, a, env) for _ in range(3)]
+                if all(r[0] == "fail" for r in res):
+                    os.makedirs(os.path.join(FAIL, pid), exist_ok=True)
+                    sha = hashlib.sha256(open(a, "rb").read()).hexdigest()[:12]
+                    dst = os.path.join(FAIL, pid, "%s-%s.bin" % (t["name"], sha))
+                    shutil.copyfile(a, dst)
+                    violations.append((dst, _summary(res[0][1])))
+                    break
+                else:
+                    log("artifact %s did not reproduce 3x - dropped" % a)
+            if p.returncode not in (0,) and not arts:
+                log("campaign %s ended with status %s and no artifact:\n%s" % (t["name"], p.returncode, logtxt[-1500:]))
+
+        stat_files = glob.glob(os.path.join(work, "stats-*"))
+        tot = merge_stats(stat_files)
+        wall = time.time() - t0
+        known_hit = dict(tot["known"])
+        listed = {k["signature"]: k for k in open_known(pid)}
+        for sig, cnt in sorted(known_hit.items()):
+            if sig in listed:
+                print("KNOWN-FINDING: property=%s %s [signature %s, seen %d times]" % (pid, listed[sig]["what"], sig, cnt))
+        execs = sum(v.get("execs", 0) for v in lf_stats.values())
+        cov = {
+            "evaluations": max(tot["cases"], execs) + replayed,
+            "distinct_nontrivial": len(tot["nontrivial"]),
+            "rule": P["rule"],
+            "samples": tot["samples"][:8] or ["(no non-trivial sample recorded)"],
+            "classes": tot["classes"],
+            "discards": tot["discards"],
+            "libfuzzer": lf_stats,
+            "corpus_replayed": replayed,
+            "known_findings_hit": known_hit,
+            "engine": "libFuzzer -fork (coverage-guided, structure-aware custom mutator) with in-target oracle",
+        }
+        write_evidence(pid, tier, seed, wall, cov, len(violations), P.get("assumptions", []))
+        log("%s %s: %d executions, %d distinct non-trivial, %.1fs, libfuzzer=%s classes=%s" % (
+            pid, tier, cov["evaluations"], cov["distinct_nontrivial"], wall, json.dumps(lf_stats, sort_keys=True),
+            json.dumps(tot["classes"], sort_keys=True)))
+        if violations:
+            for path, msg in violations[:3]:
+                print("VIOLATION property=%s replay=%s" % (pid, path))
+                log("  " + msg)
+            return 1
+        if len(tot["nontrivial"]) < P.get("floor", 2):
+            log("generator health: only %d non-trivial cases (floor %d)" % (len(tot["nontrivial"]), P.get("floor", 2)))
+            return 3
+        return 0
+    finally:
+        shutil.rmtree(work, ignore_errors=True)
+
+
+def _summary(out):
+    for pat in (r"PROPERTY-FAILURE.*\n.*\n(.*)", r"(SUMMARY: .*)", r"(ERROR: .*)", r"(runtime error: .*)"):
+        m = re.search(pat, out)
+        if m:
+            return m.group(1)[:400]
+    lines = [l for l in out.strip().splitlines() if l.strip()]
+    return lines[-1][:400] if lines else "failed"
+
+
+driver.register_engine("fuzz", run_fuzz)
